@@ -115,10 +115,28 @@ def _blocks(fn: ast.AST):
                 yield v
 
 
+def _pinned_locals(fn: ast.AST):
+    """Names given a machine type through @njit(locals=...): their assignments are semantically relevant (the value is
+    converted to that type) and are never folded away."""
+    out = set()
+    for d in getattr(fn, "decorator_list", []):
+        if isinstance(d, ast.Call):
+            for k in d.keywords:
+                if k.arg == "locals":
+                    if isinstance(k.value, ast.Dict):
+                        out |= {x.value for x in k.value.keys if isinstance(x, ast.Constant) and isinstance(x.value, str)}
+                    elif isinstance(k.value, ast.Call):
+                        out |= {kk.arg for kk in k.value.keywords if kk.arg}
+    return out
+
+
 def normalize_function(fn: ast.AST) -> int:
     n = 0
+    pinned = _pinned_locals(fn)
     while True:
         counts = _counts(fn)
+        for name in pinned:
+            counts.setdefault(name, [0, 0])[0] += 2
         changed = False
         for b in list(_blocks(fn)):
             if _fold_block(b, counts):
